@@ -369,6 +369,12 @@ func LoadFromViper(inputViper *viper.Viper) (Config, error) {
 func loadFromViper(v *viper.Viper, home string) (Config, error) {
 	cfg := DefaultConfig
 	cfg.RootDir = home
+	// DefaultConfig holds the instrumentation options behind a pointer: decode into a
+	// copy, not into the package-level defaults, which every later Load starts from.
+	if DefaultConfig.Instrumentation != nil {
+		instrumentation := *DefaultConfig.Instrumentation
+		cfg.Instrumentation = &instrumentation
+	}
 
 	decoder, err := mapstructure.NewDecoder(&mapstructure.DecoderConfig{
 		DecodeHook: mapstructure.ComposeDecodeHookFunc(
